@@ -287,6 +287,10 @@ impl Header {
         if !flags_ok {
             return Err(Error::InvalidHeader);
         }
+        // these packets have neither a variable header nor a payload
+        if matches!(typ, PacketType::Pingreq | PacketType::Pingresp | PacketType::Disconnect) && remaining_len != 0 {
+            return Err(Error::InvalidRemainingLength);
+        }
         Ok(Header {
             typ,
             dup: false,
